@@ -8,7 +8,7 @@ RULE = ("sessions of 1-8 socket bufferevents with always-ready peers; per-buffer
         "+ min_share-1 counted separately), every syscall <= max_single, and data+budget+enabled => bytes move within one tick; "
         "non-trivial = some bucket's limit was binding (traffic >= half of rate*ticks); distinct = hash of the script")
 STEPS = [
-    dict(flavor="asan", harness="h_bev2", args=["--mode", "ratelim"], cases=dict(quick=240, thorough=4800),
+    dict(flavor="asan", harness="h_bev2", args=["--mode", "ratelim"], cases=dict(quick=1200, thorough=12000),
          timeout=dict(quick=900, thorough=9000)),
 ]
 REG = dict(
